@@ -4,6 +4,8 @@
 package capacity_policy
 
 import (
+	"math"
+
 	"github.com/NVIDIA/KAI-scheduler/pkg/apis/scheduling/v2alpha2"
 	"github.com/NVIDIA/KAI-scheduler/pkg/common/constants"
 	"github.com/NVIDIA/KAI-scheduler/pkg/scheduler/api"
@@ -58,11 +60,21 @@ func isOverLimit(queueAttributes *rs.QueueAttributes, requested rs.ResourceQuant
 		if !found || requestedQty == 0 {
 			continue
 		}
-		if resourceShare.MaxAllowed < resourceShare.Allocated+requestedQty {
+		if exceeds(resourceShare.Allocated+requestedQty, resourceShare.MaxAllowed) {
 			return true, resource
 		}
 	}
 	return false, ""
+}
+
+// quantityTolerance is the relative error allowed when a sum of allocations is compared with a limit or quota.
+// Fractional GPU amounts are float64 values and are summed in no particular order: 0.1+0.2 is 0.30000000000000004,
+// and without a tolerance a queue limited to 0.3 GPUs would refuse the second of these two pods.
+const quantityTolerance = 1e-9
+
+// exceeds tells whether total is above bound by more than the rounding error of the additions that produced it.
+func exceeds(total, bound float64) bool {
+	return total-bound > quantityTolerance*math.Max(1, math.Abs(bound))
 }
 
 func getQueueOverLimitError(resourceName rs.ResourceName, queueAttributes *rs.QueueAttributes,
